@@ -1364,6 +1364,8 @@ class Interp:
                 self.frames.pop()
                 self.yield_handlers.pop()
             raise EndPath('generator exhausted on an iteration path')
+        if isinstance(it, tuple) and it and it[0] == 'range':
+            return body_cb(env['$idx'])
         if ('iterate', type(it).__name__) in self.hooks:
             return self.hooks[('iterate', type(it).__name__)](self, it, st, env, body_cb)
         if isinstance(it, tuple) and it and isinstance(it[0], str) and ('iterate', it[0]) in self.hooks:
@@ -1378,15 +1380,29 @@ class Interp:
             any(isinstance(n, ast.Yield) for n in ast.walk(st))
         mode = ctx.choice(2, f"loop{lid}")      # 0: arbitrary iteration, 1: after the loop
         names = self.assigned_names(st.body) + self.assigned_names([ast.Expr(st.target)] if False else [])
+        is_range = isinstance(it, tuple) and it and it[0] == 'range'
+        if is_range:
+            env['$idx'] = to_z3(it[1])
         if spec and spec.get('init'):
             for nm, g in spec['init'](self, env):
                 ctx.oblige(f"{lid[0]}::loop{lid[1]}::inv-init::{nm}", g, kind='inv-init')
+        elif spec and spec.get('inv') and is_range:
+            for nm, g in spec['inv'](self, env):
+                ctx.oblige(f"{lid[0]}::loop{lid[1]}::inv-init::{nm}", z3.Implies(to_z3(it[1]) < to_z3(it[2]), g) if z3.is_expr(g) else g, kind='inv-init')
         # havoc loop-carried state
         pre_env = dict(env)
         for n in names:
             if n in env:
                 env[n] = self.havoc_like(env[n], n)
         self.havoc_mutated_containers(st.body, env)
+        if is_range:
+            lo_, hi_ = to_z3(it[1]), to_z3(it[2])
+            if mode == 0:
+                idx = ctx.fresh('idx', 'I')
+                ctx.assume(lo_ <= idx, idx < hi_)
+            else:
+                idx = z3.If(hi_ > lo_, hi_, lo_)        # after the loop: every index has been processed
+            env['$idx'] = idx
         if spec and spec.get('havoc'):
             spec['havoc'](self, env, pre_env)
         if mode == 1 and spec and spec.get('havoc_exit'):
@@ -1415,6 +1431,8 @@ class Interp:
                 how = 'break'
                 if not (spec and spec.get('allow_break')):
                     raise Unsupported(f"undeclared break in cut-point loop {lid}")
+            if is_range:
+                env['$idx'] = env['$idx'] + 1
             if spec and spec.get('inv'):
                 for nm, g in spec['inv'](self, env):
                     ctx.oblige(f"{lid[0]}::loop{lid[1]}::inv-preserved::{nm}", g, kind='inv-pres')
